@@ -22,7 +22,7 @@ func init() {
 	core.Register(&core.Check{
 		ID:    "C13",
 		Level: "fault_enumeration",
-		Rule: "E-proc conservation: thousands of create/use/close cycles over prior histories {idle, 1-40 watches, pending events nobody reads, pending error (rename-then-delete family; plus one REAL queue overflow per fourth batch with Events drained and the overflow error left pending), 1-8 concurrent Close, Close racing Add/Remove}; " +
+		Rule: "E-proc conservation: thousands of create/use/close cycles over prior histories {idle, 1-40 watches, pending events nobody reads, pending error (rename-then-delete family; plus one REAL queue overflow per fourth batch with Events drained and the overflow error left pending), 1-8 concurrent Close, Close racing Add/Remove, Close while a stream of events is being consumed}, with PRNG delays at the yield point inside Close (between 'marked closed' and 'descriptor closed'); " +
 			"after Close returned and both channels closed, within a bounded number of polls: number of anon_inode:inotify descriptors == baseline, the Watcher's own descriptor number no longer names an inotify instance, total descriptors == baseline, no goroutine with a readEvents frame. " +
 			"History kind deleted-watch-pending (the kernel dropped a watch nobody has processed yet); the descriptor must be close-on-exec; Watchers are kept reachable until judged so no finalizer hides a leak. " +
 			"Injected faults: strace EIO on the inotify read followed by Close; RLIMIT_NOFILE lowered to the number of open descriptors so the first syscall of NewWatcher/NewBufferedWatcher fails with EMFILE, repeated; descriptors and goroutines must stay flat. " +
@@ -64,6 +64,30 @@ func runC13(c *core.Ctx) {
 	if !ok {
 		return
 	}
+	// PRNG delays at the yield point inside Close (between "marked closed" and "descriptor closed"): the reader
+	// goroutine then often finishes before Close goes on - the order in which the two meet must not matter
+	var sendsG int64
+	var hmu sync.Mutex
+	hrng := rand.New(rand.NewSource(rng0.Int63()))
+	fsnotify.VerifSetHooks(&fsnotify.VerifHooks{
+		Point: func(name string, n int) {
+			if name != "inotify.close" {
+				return
+			}
+			hmu.Lock()
+			k, us := hrng.Intn(4), hrng.Intn(1500)
+			hmu.Unlock()
+			switch k {
+			case 0:
+				runtime.Gosched()
+			case 1:
+				time.Sleep(time.Duration(us) * time.Microsecond)
+			}
+			c.Count("close_yield_point_hits", 1)
+		},
+		Send: func(func() bool) { atomic.AddInt64(&sendsG, 1) },
+	})
+	defer fsnotify.VerifSetHooks(nil)
 	base := filepath.Join(c.Tmp, "t")
 	os.MkdirAll(base, 0o755)
 	var dirs []string
@@ -93,7 +117,7 @@ func runC13(c *core.Ctx) {
 	}
 	for i := 0; i < cycles; i++ {
 		rng := rand.New(rand.NewSource(rng0.Int63()))
-		kind := []string{"idle", "watches", "pending-events", "pending-error", "concurrent-close", "close-racing-api", "deleted-watch-pending"}[rng.Intn(7)]
+		kind := []string{"idle", "watches", "pending-events", "pending-error", "concurrent-close", "close-racing-api", "deleted-watch-pending", "consumed-stream"}[rng.Intn(8)]
 		if i == 5 && c.Batch%4 == 0 && !c.Race {
 			// one real queue overflow per fourth batch: Events drained, the overflow error left pending
 			kind = "overflow-error-pending"
@@ -130,11 +154,9 @@ func runC13(c *core.Ctx) {
 		}
 		consume := kind != "pending-events" && kind != "pending-error" && kind != "deleted-watch-pending"
 		cdone := make(chan struct{})
-		var ovEvents, ovSends int64
+		var ovEvents int64
+		ovSends0 := atomic.LoadInt64(&sendsG)
 		ovGate := make(chan struct{})
-		if kind == "overflow-error-pending" {
-			fsnotify.VerifSetHooks(&fsnotify.VerifHooks{Send: func(func() bool) { atomic.AddInt64(&ovSends, 1) }})
-		}
 		go func() {
 			defer close(cdone)
 			evc, erc := w.Events, w.Errors
@@ -183,7 +205,31 @@ func runC13(c *core.Ctx) {
 				}
 			}
 		}()
+		var streamStop chan struct{}
+		var streamDone sync.WaitGroup
 		switch kind {
+		case "consumed-stream":
+			// events keep coming and are consumed while Close runs: the reader is mid-batch
+			streamStop = make(chan struct{})
+			streamDone.Add(1)
+			sd := dirs[0]
+			go func() {
+				defer streamDone.Done()
+				p := filepath.Join(sd, "stream")
+				os.WriteFile(p, nil, 0o644)
+				for k := 0; ; k++ {
+					select {
+					case <-streamStop:
+						return
+					default:
+					}
+					os.Chmod(p, 0o600+os.FileMode(k%2))
+					if k%16 == 0 {
+						runtime.Gosched()
+					}
+				}
+			}()
+			time.Sleep(time.Duration(rng.Intn(500)) * time.Microsecond)
 		case "pending-events", "watches":
 			for k := 0; k < 1+rng.Intn(50); k++ {
 				p := filepath.Join(dirs[rng.Intn(nw)], fmt.Sprint("f", k%5))
@@ -204,13 +250,12 @@ func runC13(c *core.Ctx) {
 			reached := false
 			for p := 0; p < 150000; p++ {
 				ne := atomic.LoadInt64(&ovEvents)
-				if ne >= int64(mq) && atomic.LoadInt64(&ovSends) > ne {
+				if ne >= int64(mq) && atomic.LoadInt64(&sendsG)-ovSends0 > ne {
 					reached = true
 					break
 				}
 				time.Sleep(100 * time.Microsecond)
 			}
-			fsnotify.VerifSetHooks(nil)
 			os.RemoveAll(od)
 			if reached {
 				c.Count("overflow_error_pending_at_close", 1)
@@ -264,6 +309,10 @@ func runC13(c *core.Ctx) {
 			}()
 		}
 		wg.Wait()
+		if streamStop != nil {
+			close(streamStop)
+			streamDone.Wait()
+		}
 		if atomic.LoadInt32(&hung) == 1 {
 			if cls, d := persistentHangClass(hungDump.Load().(string)); cls == "api-waits-for-reader-parked-in-send" {
 				c.Violate("close-waits-for-a-reader-that-never-exits", fmt.Sprintf("cycle %d [%s watches=%d closers=%d buffer=%d]: Close waits for the reader goroutine, which is parked in a send nobody receives and does not react to Close: the goroutine, its buffer and the channels are never released", i, kind, nw, closers, buf), dumpExcerpt(d))
